@@ -195,6 +195,14 @@ TEMPLATES = [
     [["S", ["c", "A", "B", "a"]], ["A", []], ["A", ["a"]], ["B", []], ["B", ["b"]]],
     [["S", ["A", "b"]], ["A", ["A", "a"]], ["A", []]],  # left recursion with epsilon base
     [["S", ["a", "A"]], ["A", ["b", "A"]], ["A", ["b"]], ["D", ["d"]]],  # unreachable symbol
+    # FIRST through a nullable leading symbol and a chain of unit productions (several passes of the fixed point)
+    [["S", ["A", "B"]], ["A", ["a"]], ["B", ["C", "D"]], ["C", ["b"]], ["C", []], ["D", ["c"]]],
+    [["S", ["A", "B"]], ["A", ["a"]], ["B", ["C", "D"]], ["C", ["b"]], ["C", []], ["D", ["A"]], ["D", ["c"]]],
+    [["S", ["A", "B"]], ["S", ["D", "B"]], ["A", ["a"]], ["D", ["a"]], ["B", ["C", "c"]], ["C", []]],  # ambiguous only through FIRST of a nullable prefix
+    [["S", ["B", "A", "C"]], ["A", []], ["A", ["a"]], ["B", []], ["B", ["b"]], ["C", ["D"]], ["D", ["A", "c"]]],
+    # two kernel items advancing over one symbol, and a later state holding only the first of them
+    [["S", ["a", "A"]], ["S", ["a", "B"]], ["S", ["b", "A"]], ["A", ["c", "d"]], ["B", ["c", "a", "d"]]],
+    [["S", ["a", "A", "d"]], ["S", ["b", "A", "c"]], ["S", ["a", "B", "c"]], ["A", ["c", "c"]], ["B", ["c", "c"]]],
 ]
 
 
@@ -333,6 +341,15 @@ def run(ctx):
     for hs in hashseeds:
         jobs.append((0, 0, max_len, hs, lit))
     ctx.stats = run_workers(ctx, jobs)
+    # the Emboss grammar itself is conflict-free (the shipped tables were generated from it): the
+    # generator must build a parser for it; conflicts or an exception here are its failure
+    try:
+        from props import c09_cached_parser as c09
+
+        c09.fresh_module_parser()
+    except Exception:
+        ctx.stats.fail(dict(kind="generator-fails-on-emboss-grammar", **emb.exc_signature()), {"grammar": "emboss (module_ir.PRODUCTIONS)"}, traceback.format_exc()[-3000:])
+        return ctx.finish(None)
     ctx.stats.merge(vlib.run_shards(emboss_shard, 16, seed=ctx.seed, n=ctx.pick(12, 200)))
     return ctx.finish(None)
 
